@@ -28,6 +28,30 @@ CLAIMS["C14"] = {
   "technique": "contract-based deductive verification: WP-style VCs from go/ssa (bit-vector and integer), SMT",
   "design_ref": "DESIGN.md section 4 C14",
 }
-NA = {k: PENDING for k in ["C01","C02","C04","C06","C09","C10","C11","C12","C15","C16","C17","C18","C19","C20"]}
+CLAIMS["C09"] = {
+  "text": "Proof that (a) js_parser.Options.Equal, which keys the AST cache, implies agreement on every parser option (one postcondition per field incl. all JSX options, injected files element-wise, regexps, drop labels; nested loops with quantified invariants; helpers.StringArraysEqual under its own contract); (b) code that runs after parsing on ASTs shared with the cache writes only objects it allocates itself: frame obligations (inferred from every store in the static call graph, interface calls resolved by CHA) for js_printer.Print, css_printer.Print, js_ast.SimplifyUnusedExpr/SimplifyBooleanExpr/TryToInsertOptionalChain/InlinePrimitivesIntoTemplate/MaybeSimplifyNot, and an ownership contract with a loop invariant for linker.mergeAdjacentLocalStmts (it only extends the SLocal clone it created).",
+  "note": "NOT covered: parser purity w.r.t. other files (assumption A9 of DESIGN.md), the caches' lookup code itself (cache.JSCache.Parse etc.), file-system watch recording and predicates, resolver caches, immutability of cached ASTs under the rest of the linker, writes to nested logger.Loc/ast.Ref fields of AST nodes when the nested field's address escapes, `append` into spare capacity of a cached slice. Callback fields HelperContext.isUnbound and js_printer.Options.RequireOrImportMetaForSource are assumed not to write the AST.",
+  "technique": "contract-based deductive verification: per-field postconditions with loop invariants (SMT) + inferred-frame (assigns) obligations over go/ssa",
+  "design_ref": "DESIGN.md section 4 C09, family F3/F11",
+}
+CLAIMS["C10"] = {
+  "text": "Proof that the cross-chunk export alias allocator renamer.(*ExportRenamer).NextRenamedName returns a name that was not handed out before, records it, and never forgets an earlier name (postconditions over the abstract set view of its map, for all call histories of one renamer): aliases of one chunk are therefore pairwise distinct.",
+  "note": "NOT covered: that grouping parts by entry-bit set yields once-only evaluation and initialise-before-read (needs JS module semantics), bit-set algebra and chunk keys, cross-chunk import/export wiring in computeCrossChunkDependencies, the cycle check. Only the alias-uniqueness kernel is claimed.",
+  "technique": "contract-based deductive verification: WP-style VCs from go/ssa with a map model, SMT",
+  "design_ref": "DESIGN.md section 4 C10",
+}
+CLAIMS["C12"] = {
+  "text": "Proof that CSS structural equality, which licenses rule merging and duplicate-rule removal, is complete per node: for Token, NameToken, NamespacedName and 18 rule / media-query / selector node types, Equal implies the same node kind, equal scalar fields and equal child counts (lemmas over the symbolically executed real methods); TokensEqual/RulesEqual/ComplexSelectorsEqual/MediaQueriesEqual imply equal lengths and their declared frame (path compression of symbol links only) is checked. Colour bit-arithmetic: expandHex equals the CSS short-hex expansion, a colour printed in compact form has at most 4 (3) hex digits and expands back to itself, hexR/G/B/A invert byte packing, floatToByte clamps every float64 to a byte.",
+  "note": "NOT covered: the cascade itself (selector matching, specificity, shorthand expansion), isSafeSelectors, nesting expansion, calc reduction, colour-space conversion, import-order and conditional-import wrapping in the linker, element-wise child equality (children are compared by dynamically dispatched Equal calls; only their count is in the proved view), case-insensitive at-keyword comparison.",
+  "technique": "contract-based deductive verification: completeness lemmas over inlined real methods + bit-vector lemmas, SMT",
+  "design_ref": "DESIGN.md section 4 C12, family F3",
+}
+CLAIMS["C15"] = {
+  "text": "Proof, at the single store that assigns a minified name to a slot in renamer.(*MinifyRenamer).AssignNamesByFrequency, that for all inputs a default-namespace name is not in the reserved set (keywords, strict-mode words, free/unbound and pinned names), a label name is not a keyword, and the name of a symbol used as a JSX tag does not start with a lower-case ASCII letter (site obligations over the whole function with its nested loops).",
+  "note": "NOT covered: injectivity of NumberToMinifiedName and distinctness of names within a slot namespace, numbered renaming (findUnusedName), nested-scope slot assignment, completeness of ComputeReservedNames, that the parser's scope tree matches JS scoping, property mangling, cross-chunk symbol registration in the linker.",
+  "technique": "contract-based deductive verification: site obligations in WP-style VCs from go/ssa, SMT",
+  "design_ref": "DESIGN.md section 4 C15",
+}
+NA = {k: PENDING for k in ["C01","C02","C04","C06","C11","C16","C17","C18","C19","C20"]}
 NA["C05"] = "Lowering correctness is equivalence between two JavaScript programs (native construct vs helper-call expansion; helpers are JS text in runtime.go); a Go-level contract can state an AST shape, not what the shape computes. The Go-level facts (a construct is lowered iff its feature bit is unsupported) are C14's gate obligations."
 NA["C13"] = "Output re-parses / is a fixed point of print∘parse / every valid program is accepted are relations over the whole lexer+parser+printer against the ECMAScript and CSS grammars; no function's postcondition states them short of a verified parser."
